@@ -209,6 +209,9 @@ Section NoElide.
   Variable to : ty.
   Hypothesis Hto : elided_ty to = false.
 
+  Lemma after_amp_no_elide : elided_ty (after_amp to) = false.
+  Proof. unfold after_amp. destruct to as [| | | | | | | | |bs]; try exact Hto. destruct bs as [|? [|? ?]]; exact Hto. Qed.
+
   Lemma expand_self_no_elide_all :
     (forall t, elided_ty t = false -> elided_ty (expand_self_ty to t) = false).
   Proof.
@@ -225,12 +228,14 @@ Section NoElide.
       rewrite (existsb_map_false _ _ _ Hs H2), Bool.orb_false_r.
       destruct q as [[qt k]|]; [cbn [Pq fst] in Hq; apply Hq; exact H1 | reflexivity].
     - intros lt mt t IH H. cbn [expand_self_ty is_self_ty]. cbn [elided_ty] in *.
-      apply Bool.orb_false_iff in H as [H1 H2]. rewrite H1, (IH H2). reflexivity.
+      apply Bool.orb_false_iff in H as [H1 H2]. rewrite H1.
+      destruct (is_self_ty t); [rewrite after_amp_no_elide | rewrite (IH H2)]; reflexivity.
     - intros ts IH H. cbn [expand_self_ty is_self_ty]. cbn [elided_ty] in *.
       apply existsb_map_false; assumption.
     - intros t len IH H. cbn [expand_self_ty is_self_ty elided_ty] in *. apply IH, H.
     - intros t IH H. cbn [expand_self_ty is_self_ty elided_ty] in *. apply IH, H.
-    - intros mt t IH H. cbn [expand_self_ty is_self_ty elided_ty] in *. apply IH, H.
+    - intros mt t IH H. cbn [expand_self_ty is_self_ty elided_ty] in *.
+      destruct (is_self_ty t); [apply after_amp_no_elide | apply IH, H].
     - intros args ret IHa IHr H. cbn [expand_self_ty is_self_ty]. cbn [elided_ty] in *.
       apply Bool.orb_false_iff in H as [H1 H2]. rewrite (existsb_map_false _ _ _ IHa H1). cbn [orb].
       destruct ret as [r|]; [apply IHr, H2 | reflexivity].
@@ -291,6 +296,9 @@ Section Identity.
   Lemma is_self_mentions t : is_self_ty t = true -> mentions_self_ty t = true.
   Proof. intros H. destruct t; cbn [mentions_self_ty]; rewrite ?H; try reflexivity; discriminate. Qed.
 
+  Lemma not_mentioned_not_self t : mentions_self_ty t = false -> is_self_ty t = false.
+  Proof. intros H. destruct (is_self_ty t) eqn:E; [|reflexivity]. apply is_self_mentions in E. congruence. Qed.
+
   Lemma expand_self_id_all :
     (forall t, mentions_self_ty t = false -> expand_self_ty to t = t).
   Proof.
@@ -306,12 +314,13 @@ Section Identity.
       rewrite (map_id_when _ _ _ Hs H2).
       destruct q as [[qt k]|]; [cbn [Pq fst] in Hq; rewrite (Hq H1)|]; reflexivity.
     - intros lt mt t IH H. cbn [mentions_self_ty is_self_ty orb] in H. cbn [expand_self_ty is_self_ty].
-      rewrite (IH H). reflexivity.
+      rewrite (not_mentioned_not_self _ H), (IH H). reflexivity.
     - intros ts IH H. cbn [mentions_self_ty is_self_ty orb] in H. cbn [expand_self_ty is_self_ty].
       rewrite (map_id_when _ _ _ IH H). reflexivity.
     - intros t len IH H. cbn [mentions_self_ty is_self_ty orb] in H. cbn [expand_self_ty is_self_ty]. rewrite (IH H). reflexivity.
     - intros t IH H. cbn [mentions_self_ty is_self_ty orb] in H. cbn [expand_self_ty is_self_ty]. rewrite (IH H). reflexivity.
-    - intros mt t IH H. cbn [mentions_self_ty is_self_ty orb] in H. cbn [expand_self_ty is_self_ty]. rewrite (IH H). reflexivity.
+    - intros mt t IH H. cbn [mentions_self_ty is_self_ty orb] in H. cbn [expand_self_ty is_self_ty].
+      rewrite (not_mentioned_not_self _ H), (IH H). reflexivity.
     - intros args ret IHa IHr H. cbn [mentions_self_ty is_self_ty orb] in H. cbn [expand_self_ty is_self_ty].
       apply Bool.orb_false_iff in H as [H1 H2]. rewrite (map_id_when _ _ _ IHa H1).
       destruct ret as [r|]; [rewrite (IHr H2)|]; reflexivity.
